@@ -23,7 +23,8 @@ def write(engine, prop, tier, seed, agg, wall, jobs, batch_digest, determinism,
         'distinct_nontrivial': len(agg['states']),
         'rule': info['rule'],
         'samples': samples,
-        'exhaustive': bool(info.get('exhaustive', False)) and not truncated,
+        'exhaustive': (bool(info.get('exhaustive', False)) or
+                       (bool(info.get('exhaustive_in_thorough')) and tier == 'thorough')) and not truncated,
         'simulated_runs': agg['n'],
         'nontrivial_runs': agg['nontrivial_runs'],
         'logical_steps': agg['steps'],
